@@ -1,7 +1,7 @@
 (* C12 — Compiler emulation: aliases, implicit options, modes and passes.
    Statements only; proofs are in Proofs/C12*.v. *)
 From Coq Require Import Bool Ascii String List.
-From CBI Require Import Lib.Data Lib.Res Model.C12 Spec.C12 Proofs.C12 Proofs.C12f Gen.C12_tables.
+From CBI Require Import Lib.Data Lib.Res Model.C12 Spec.C12 Proofs.C12 Proofs.C12f Proofs.C12g Gen.C12_tables.
 Import ListNotations.
 Local Open Scope string_scope.
 Local Open Scope list_scope.
@@ -105,6 +105,27 @@ Theorem C12_flags_exact :
   forall c argv r, spec_parse c argv = Some r -> parse_args false c argv = inr r.
 Proof. exact flags_exact. Qed.
 Print Assumptions C12_flags_exact.
+
+(* Lists that no rule of the compiler rewrites (no store_split / overriding extend_match
+   aimed at them): after EVERY item list the list is its initial value followed by the
+   contributions of the items in command-line order (implicit options last, by
+   C12_implicit_is_appended) - the constant of each append_const flag present, the value
+   of each append flag. *)
+Theorem C12_append_only_lists :
+  forall rs d, forallb (appendish d) rs = true ->
+  forall items n,
+    get_dest d (fold_left (fun n it => item_effect rs it n) items n) =
+    get_dest d n ++ flat_map (item_contrib rs d) items.
+Proof. exact append_only_lists. Qed.
+Print Assumptions C12_append_only_lists.
+
+(* ... and every built-in compiler qualifies, for definitions, include paths, include
+   files and modes (their pass-selecting custom actions write _passes only) *)
+Theorem C12_builtins_append_only :
+  forallb (fun nc => forallb (fun d => forallb (appendish d) (generic_rules ++ c_rules (snd nc)))
+                             [DDefs; DPaths; DFiles; DModes; DPasses]) builtin_table = true.
+Proof. vm_compute. reflexivity. Qed.
+Print Assumptions C12_builtins_append_only.
 
 (* A user configuration extends the built-in one.  For EVERY table and EVERY list of
    user [compiler.NAME] tables with distinct names: a table that fails the schema
